@@ -219,6 +219,15 @@ fn run_huff(v: &[u64]) {
             let got = c.index(*i).into_owned();
             vassert!(&got == want, "VF:huffman.read_differs_from_pushed");
         }
+        // the other owned conversion of the newest item, into an empty buffer and into one that is one symbol short
+        {
+            let (i, want) = issued.last().unwrap();
+            let mut t0: Vec<u16> = Vec::new();
+            c.index(*i).clone_onto(&mut t0);
+            let mut t1: Vec<u16> = vec![9; want.len().saturating_sub(1)];
+            c.index(*i).clone_onto(&mut t1);
+            vassert!(&t0 == want && &t1 == want, "VF:huffman.clone_onto_differs_from_pushed");
+        }
     }
     if v[5] == 1 {
         let before = issued.clone();
